@@ -22,14 +22,40 @@ def mirror_tree(base, url, with_mtime=False):
     return {k: (v if with_mtime else v[:3]) for k, v in t.items()}
 
 
+def add_twin(rng, scn):
+    """a Sources stanza lists a file that a Packages index of the same repository lists too (same path, same
+    size, other hash sets): get_pool_files then queues the path twice"""
+    for r in scn.repos:
+        for cn, c in r["version"]["codenames"].items():
+            for comp, cc in c["components"].items():
+                cfg = r["config"]["codenames"].get(cn, {}).get(comp)
+                if cc["sources"] is None or cfg is None:
+                    continue
+                for arch in cfg["arches"]:
+                    pk = [q for q in cc["arches"].get(arch, []) if isinstance(q.get("size"), int) and q["size"] > 0 and not q.get("filename")]
+                    if not pk:
+                        continue
+                    q = rng.choice(pk)
+                    fn = P.pkg_filename(comp, arch, q)
+                    cc["sources"].append({"name": "twsrc" + q["name"], "version": "1", "directory": fn.rsplit("/", 1)[0],
+                                          "files": [], "raw_files": [[fn.rsplit("/", 1)[1], q["size"]]]})
+                    cfg["src"] = True
+                    return True
+    return False
+
+
 def gen_case(rng):
     scn = P.gen_scenario(rng, nrepos=1)
+    if rng.random() < 0.25:
+        add_twin(rng, scn)
     return scn, {"seed": rng.getrandbits(32), "steps": rng.randint(1, 3)}
 
 
 UNOBSERVED = []   # pool stages that ran but whose queue could not be read off download_pool_files()
 
 
+RROWS = []        # the release rounds of every recorded run (ReleaseStage.v)
+RSKIPPED = []
 PROWS = []        # the unpack + parse + queue step of every recorded run (Unpack.v / PoolQueue.v / Deb822.v)
 PSKIPPED = []
 
@@ -40,6 +66,11 @@ def pool_row(rows, jc, scn, base, files, plan, res, what, mrows=None):
     for r in scn.repos:
         url = r["url"]
         o = res.obs.get(url, {})
+        rr, rm = R.release_tie_row(o, files[url], faults.get(url, {}))
+        if rr is None:
+            RSKIPPED.append((what, rm))
+        else:
+            RROWS.append((dict(jc, run=what), rr[0], rr[1], rm))
         if "pool_queue" not in o:
             if "pool_pre" in o:
                 UNOBSERVED.append((what, o.get("pool_queue_error")))
@@ -73,7 +104,9 @@ def pool_row(rows, jc, scn, base, files, plan, res, what, mrows=None):
                       "hyp": (all(f["check_size"] and not f["ignore_errors"] and not f["ignore_missing"]
                                   and len(f["variants"]) == 1 and f["variants"][0]["size"] > 0
                                   and f["variants"][0]["paths"] == [f["variants"][0]["source"]] for f in o["pool_queue"])
-                              and len({f["variants"][0]["source"] for f in o["pool_queue"] if f["variants"]}) == len(o["pool_queue"])),
+                              # pool_tree_with_twins: a path may be queued twice when the declared sizes agree
+                              and len({(f["variants"][0]["source"], f["variants"][0]["size"]) for f in o["pool_queue"] if f["variants"]})
+                              == len({f["variants"][0]["source"] for f in o["pool_queue"] if f["variants"]})),
                       "wrong_size_before": sum(1 for f in o["pool_queue"] for v in f["variants"][:1]
                                                if v["source"] in o["pool_pre"] and o["pool_pre"][v["source"]][0] != v["size"])}))
 
@@ -174,6 +207,33 @@ def run_case(rep, scn, case, sb, tag, rows=None, mrows=None):
     return found
 
 
+def release_tie(rep, rrows, rskipped, found):
+    """the release rounds of every recorded run replayed on ReleaseStage.release_stage: number of rounds, verdict,
+    counted errors, and skel's release files after every round"""
+    rheader = R.RELEASE_HEADER + R.RELEASE_DEFS
+    ambiguous = [x for x in rskipped if str(x[1]).startswith("ambiguous")]
+    rskipped = [x for x in rskipped if not str(x[1]).startswith("ambiguous")]
+    rep.count("release_tie.not_observed", len(rskipped))
+    rep.count("release_tie.same_size_other_verdict_skipped", len(ambiguous))
+    if rskipped and not found and len(rskipped) > len(rrows):
+        rep.violation(f"correspondence release: the release rounds of {len(rskipped)} runs could not be observed "
+                      f"({rskipped[0]}): release_round_is_determined_by_upstream is not tied to these runs",
+                      {"kind": "correspondence-error", "tie": "release", "theorem": "release_round_is_determined_by_upstream",
+                       "unobserved": [list(map(str, u)) for u in rskipped[:5]]},
+                      tags={"kind": "tie-error", "tie": "release"}, no_failing_input=True)
+        found = True
+    for _, _, _, m in rrows:
+        rep.count("release_tie.runs")
+        rep.count("release_tie.rounds", m["rounds"])
+        rep.count("release_tie.validated", int(m["valid"]))
+        rep.count("release_tie.stale_flavours_dropped", m["stale_before"])
+    mism, errors = C.run_mismatch_shards(rep.prop, "release", rheader, "m_release", "eq_release",
+                                         [(a, b) for _, a, b, _ in rrows], shard=40)
+    C.tie_verdict(rep, "release", mism, errors, [c for c, _, _, _ in rrows], found, header=rheader, fn="m_release",
+                  coq_inputs=[a for _, a, _, _ in rrows])
+    return found
+
+
 def run(rep: C.Report):
     rep.rule = ("histories of 2-4 upstream versions (packages added/removed/upgraded, compression sets, by-hash "
                 "and release flavours changing, pool paths immutable; the upstream sometimes stays the same "
@@ -225,6 +285,7 @@ def run(rep: C.Report):
     mism, errors = C.run_mismatch_shards(rep.prop, "meta", mheader, "m_meta", "eq_pool", [(a, b) for _, a, b, _ in mrows], shard=25)
     C.tie_verdict(rep, "meta", mism, errors, [c for c, _, _, _ in mrows], found, header=mheader, fn="m_meta",
                   coq_inputs=[a for _, a, _, _ in mrows])
+    found |= release_tie(rep, RROWS, RSKIPPED, found)
     # which stored file every index was read from, and the queue built from what was read
     pheader = R.PARSED_HEADER + R.PARSED_DEFS
     rep.count("parsed_tie.stages_not_observed", len(PSKIPPED))
